@@ -77,7 +77,10 @@ class PlainDecoder:
         out = []
         while self.buf:
             if self.buf[0] != 0:
-                raise DecodeError(f"preamble {self.buf[0]:#x}")
+                err = DecodeError(f"preamble {self.buf[0]:#x}")
+                err.frames = out          # the complete frames in front of the bad byte were received all the same
+                self.frames.extend(out)
+                raise err
             r = dec_varint(self.buf, 1)
             if r is None:
                 break
